@@ -14,6 +14,8 @@ Z3_TIMEOUT_MS = int(os.environ.get('PYVC_Z3_TIMEOUT_MS', '20000'))
 CVC5_TIMEOUT_S = int(os.environ.get('PYVC_CVC5_TIMEOUT_S', '40'))
 Z3NEW_TIMEOUT_S = int(os.environ.get('PYVC_Z3NEW_TIMEOUT_S', '30'))
 NPROC = int(os.environ.get('PYVC_NPROC', '14'))
+PATIENT_CVC5_S = int(os.environ.get('PYVC_PATIENT_CVC5_S', '240'))
+PATIENT_Z3_MS = int(os.environ.get('PYVC_PATIENT_Z3_MS', '120000'))
 
 
 def to_smt2(assumptions, goal, expect):
@@ -126,13 +128,14 @@ def _cvc5_dialect(smt):
     return smt
 
 
-def _cvc5(smt, want_model):
+def _cvc5(smt, want_model, timeout_s=None):
+    timeout_s = timeout_s or CVC5_TIMEOUT_S
     text = '(set-logic ALL)\n' + _cvc5_dialect(smt)
     cmd = ['/usr/bin/cvc5', '--strings-exp', '--tlimit=%d' % (
-        CVC5_TIMEOUT_S * 1000)]
+        timeout_s * 1000)]
     if want_model:
         cmd.append('--produce-models')
-    return _run_cli(cmd, text, CVC5_TIMEOUT_S, want_model)
+    return _run_cli(cmd, text, timeout_s, want_model)
 
 
 def _z3new(smt, want_model):
@@ -145,8 +148,22 @@ def solve_one(job):
     seconds, log)"""
     idx, smt, want_model = job[:3]
     quick_only = len(job) > 3 and job[3]
+    patient = len(job) > 4 and job[4]
     log = []
     total = 0.0
+    if patient:
+        for name, fn in (('cvc5', lambda: _cvc5(smt, want_model, PATIENT_CVC5_S)),
+                         ('z3', lambda: _run_z3_api(smt, want_model, PATIENT_Z3_MS))):
+            try:
+                v, m, dt = fn()
+            except Exception as e:
+                v, m, dt = 'unknown', None, 0.0
+                log.append('%s error: %r' % (name, e))
+            total += dt
+            log.append('%s:%s:%.2fs' % (name, v, dt))
+            if v != 'unknown':
+                return idx, v, m, name, total, log
+        return idx, 'unknown', None, 'none', total, log
     try:
         v, m, dt = _run_z3_api(smt, want_model, Z3_QUICK_MS)
     except Exception as e:
